@@ -491,12 +491,24 @@ impl Observations for ObservationBagSync {
 
     fn snapshot(&self) -> ObservationBagSnapshot {
         ObservationBagSnapshot {
-            count: self.count.load(SYNC_BAG_ACCESS_ORDERING),
-            sum: self.sum.load(SYNC_BAG_ACCESS_ORDERING),
+            count: {
+                #[cfg(folo_verif)]
+                crate::verif_hook::point_in_section("bag.snapshot:count.load");
+                self.count.load(SYNC_BAG_ACCESS_ORDERING)
+            },
+            sum: {
+                #[cfg(folo_verif)]
+                crate::verif_hook::point_in_section("bag.snapshot:sum.load");
+                self.sum.load(SYNC_BAG_ACCESS_ORDERING)
+            },
             bucket_counts: self
                 .bucket_counts
                 .iter()
-                .map(|x| x.load(SYNC_BAG_ACCESS_ORDERING))
+                .map(|x| {
+                    #[cfg(folo_verif)]
+                    crate::verif_hook::point_in_section("bag.snapshot:bucket.load");
+                    x.load(SYNC_BAG_ACCESS_ORDERING)
+                })
                 .collect::<Vec<_>>()
                 .into_boxed_slice(),
             bucket_magnitudes: self.bucket_magnitudes,
